@@ -71,6 +71,7 @@ type rec struct {
 	m, q    string
 	config  string
 	failure string
+	family  int // targeted family, -1 for a random slice
 }
 
 // observation epilogue appended to every q: the globals and a call through a closure
@@ -96,9 +97,14 @@ func Check(c *core.Ctx) (map[string]any, []string, error) {
 	for i := range recs {
 		pre := 4 // the leading var declarations stay in the history
 		var h, m, q []c01.N
+		fam := -1
 		if i%2 == 0 {
 			// targeted behaviour: one family per kind of reference the copy must remap
-			h, m, q = scen.Scenario(rng)
+			fam = rng.Intn(scen.Families)
+			if f := os.Getenv("VERIF_C17_FAMILY"); f != "" { // development aid: one family only
+				fmt.Sscan(f, &fam)
+			}
+			h, m, q = scen.ScenarioOf(fam, rng)
 			q = append(q, epilogue()...)
 		} else {
 			body := g.Program()
@@ -109,7 +115,7 @@ func Check(c *core.Ctx) (map[string]any, []string, error) {
 			m = rest[a:b]
 			q = append(append([]c01.N{}, rest[b:]...), epilogue()...)
 		}
-		r := &rec{config: configs[(i/2)%len(configs)]}
+		r := &rec{config: configs[(i/2)%len(configs)], family: fam}
 		// the history is sometimes two programs (state carried between Run calls)
 		hs := [][]c01.N{h}
 		if len(h) > pre+1 && i%3 == 0 {
@@ -202,6 +208,7 @@ func Check(c *core.Ctx) (map[string]any, []string, error) {
 		judged++
 	}
 	var nUnd, nBad int64
+	undByFamily := map[int]int{}
 	res, err := tlc.Run(tlc.Opts{SpecDir: c.SpecDir, Module: "C17",
 		Cfg:     fmt.Sprintf("CONSTANTS\n OpenDev = %s\n Fuel = 300\nINIT Init\nNEXT Next\nINVARIANT Check\nCHECK_DEADLOCK FALSE\n", core.TLASet(c.Findings.OpenIDs())),
 		Workers: c.Workers, Files: map[string][]byte{"trace.ndjson": buf.Bytes()}, Timeout: 60 * time.Minute, HeapMB: 12000},
@@ -222,6 +229,7 @@ func Check(c *core.Ctx) (map[string]any, []string, error) {
 			switch v.Status {
 			case "und":
 				nUnd++
+				undByFamily[r.family]++
 			case "bad":
 				nBad++
 				what := "the runtime the mutation ran on answers the observation program differently from a runtime that ran history;mutation"
@@ -241,8 +249,21 @@ func Check(c *core.Ctx) (map[string]any, []string, error) {
 	if len(recs) > 0 {
 		samples = append(samples, map[string]any{"config": recs[0].config, "history": recs[0].srcs, "mutation": recs[0].m, "observation": recs[0].q, "observed": recs[0].line})
 	}
+	// a family that the specification leaves undecided every time decides nothing: say so loudly
+	perFamily := map[int]int{}
+	for _, r := range recs {
+		perFamily[r.family]++
+	}
+	undFam := map[string]string{}
+	for f, n := range undByFamily {
+		undFam[fmt.Sprint(f)] = fmt.Sprintf("%d of %d", n, perFamily[f])
+		if f >= 0 && n == perFamily[f] && n >= 3 {
+			c.Note("targeted family %d is undecided in all its %d behaviours: its observations leave the modelled fragment", f, n)
+		}
+	}
 	cov := map[string]any{
-		"states": res.Distinct, "transitions": res.Generated, "traces_validated_against_impl": judged,
+		"undecided_by_family": undFam,
+		"states":              res.Distinct, "transitions": res.Generated, "traces_validated_against_impl": judged,
 		"samples": samples, "behaviours": nProg, "configurations": configs,
 		"undecided": nUnd, "rejected": nBad, "tlc_wall_s": res.Wall,
 	}
